@@ -62,7 +62,7 @@ const (
 	guardStaleTicks = 10              // a call in flight for ~5 s is looked at
 	guardGap        = 3 * time.Second // between the two dumps
 	guardRounds     = 4               // looks before giving up as inconclusive
-	guardMinCPU     = 1200 * time.Millisecond
+	guardMinCPU     = 600 * time.Millisecond
 )
 
 var grd *guard
